@@ -644,8 +644,12 @@ func (o *c06Obs) String() string {
 
 // c06Store does what happens to an accepted row on its way into a shard: index key, fields sorted,
 // column record; then reads everything back from the index key and the record columns.
-func c06Store(row *influx.Row) (o c06Obs, err error) {
-	row.UnmarshalIndexKeys(nil)
+func c06Store(row *influx.Row) (o c06Obs, err error) { return c06StoreKeyed(row, true) }
+
+func c06StoreKeyed(row *influx.Row, buildKey bool) (o c06Obs, err error) {
+	if buildKey {
+		row.UnmarshalIndexKeys(nil)
+	}
 	name, _, err := influx.MeasurementName(row.IndexKey)
 	if err != nil {
 		return o, fmt.Errorf("index key: %w", err)
@@ -706,6 +710,66 @@ type c06Real struct {
 	Rows   []c06Obs
 	Lo, Hi int64 // server time window of the call
 	Panic  string
+	Hop    string // non-empty: the store hop (row batch codec into a reused decoder) changed a point
+}
+
+// c06Pools is the reusable state of the store-side decoder (lib/pointsdecoder.DecoderWork: rows and pools are
+// truncated to length 0 between requests, never cleared).
+type c06Pools struct {
+	rows []influx.Row
+	tags []influx.Tag
+	flds []influx.Field
+	opts []influx.IndexOption
+	keys []byte
+	buf  []byte
+}
+
+var c06Hop = &c06Pools{}
+
+// c06StoreHop ships accepted rows the way the sql node ships them to a store node (FastMarshalMultiRows), decodes them into the
+// reused decoder state and reads every point back from the decoded row (index key as decoded, tags as decoded, fields).
+func c06StoreHop(rows []influx.Row, direct []c06Obs) (diff string) {
+	defer func() {
+		if x := recover(); x != nil {
+			diff = fmt.Sprintf("panic in the row batch codec: %v", x)
+		}
+	}()
+	p := c06Hop
+	data, err := influx.FastMarshalMultiRows(p.buf[:0], rows)
+	if err != nil {
+		return "FastMarshalMultiRows of accepted rows: " + err.Error()
+	}
+	p.buf = data
+	p.rows, p.tags, p.flds, p.opts, p.keys, err = influx.FastUnmarshalMultiRows(data, p.rows[:0], p.tags[:0], p.flds[:0], p.opts[:0], p.keys[:0])
+	if err != nil {
+		return "FastUnmarshalMultiRows of shipped rows: " + err.Error()
+	}
+	if len(p.rows) != len(direct) {
+		return fmt.Sprintf("%d rows shipped, %d rows decoded", len(direct), len(p.rows))
+	}
+	for i := range p.rows {
+		row := &p.rows[i]
+		var kt influx.PointTags
+		if _, err := influx.IndexKeyToTags(row.IndexKey, true, &kt); err != nil {
+			return fmt.Sprintf("row %d: decoded index key: %v", i, err)
+		}
+		if len(kt) != len(row.Tags) {
+			return fmt.Sprintf("row %d: decoded row has tags %v but index key %q", i, row.Tags, row.IndexKey)
+		}
+		for j := range kt {
+			if kt[j].Key != row.Tags[j].Key || kt[j].Value != row.Tags[j].Value {
+				return fmt.Sprintf("row %d: decoded row has tags %v but index key %q", i, row.Tags, row.IndexKey)
+			}
+		}
+		o, err := c06StoreKeyed(row, false)
+		if err != nil {
+			return fmt.Sprintf("row %d after the store hop: %v", i, err)
+		}
+		if o.String() != direct[i].String() {
+			return fmt.Sprintf("row %d: stored directly %s, stored after the store hop %s", i, direct[i].String(), o.String())
+		}
+	}
+	return ""
 }
 
 func c06RunReal(text string, mult int64) (r c06Real) {
@@ -730,6 +794,9 @@ func c06RunReal(text string, mult int64) (r c06Real) {
 				return
 			}
 			r.Rows = append(r.Rows, o)
+		}
+		if len(rows) > 0 {
+			r.Hop = c06StoreHop(rows, r.Rows)
 		}
 	}
 	uw.Db = "db0"
@@ -1082,7 +1149,22 @@ var c06Dump = func() *os.File {
 func c06Check(rep *kit.Report, c *c06Case) {
 	rep.Eval(1)
 	mult := c06Multiplier(c.Precision)
+	// the store-side decoder state: fresh for an ordinary case (so that a case replays alone), primed by the first body
+	// of a "hopseq" case (Text = body A, 0x1e, body B: B is judged after A went through the same decoder)
+	c06Hop = &c06Pools{}
+	orig := c
+	if c.Stage == "hopseq" {
+		if k := strings.IndexByte(c.Text, 0x1e); k >= 0 {
+			c06RunReal(c.Text[:k], mult)
+			c = &c06Case{Stage: "pure", Group: c.Group, Text: c.Text[k+1:], Precision: c.Precision}
+		}
+	}
 	real := c06RunReal(c.Text, mult)
+	if real.Panic == "" && real.Hop != "" {
+		rep.Count("violation_store_hop_changes_point", 1)
+		rep.Violation("store_hop_changes_point", orig.Precision+"|"+orig.Stage+"|"+strings.Replace(orig.Text, "\x1e", " ; then ; ", 1), real.Hop, orig)
+		return
+	}
 	if real.Panic != "" {
 		rep.Violation("panic", c.Precision+"|"+c.Text, "panic in the write path: "+real.Panic, c)
 		return
@@ -1392,6 +1474,40 @@ func TestVerifC06(t *testing.T) {
 			return !stop
 		})
 	}
+	// 6. store hop with a reused decoder: every ordered pair of request bodies (one or two lines each, lines differing in
+	// number of tags, fields, measurement) goes through ONE store-side decoder; the second body is judged
+	var hopLines []string
+	for _, mst := range []string{"m", "mm"} {
+		for _, tags := range []string{"", ",t=v", ",t=v,u=w", ",u=x"} {
+			for _, flds := range []string{" f=1i", ` f=1.5,g="s"`, " g=t 7"} {
+				hopLines = append(hopLines, mst+tags+flds)
+			}
+		}
+	}
+	hopBodies := append([]string{}, hopLines...)
+	for i, a := range hopLines {
+		for j, b := range hopLines {
+			if (i+j)%3 == 0 || thorough { // quick: a third of the two-line bodies
+				hopBodies = append(hopBodies, a+"\n"+b)
+			}
+		}
+	}
+	for _, a := range hopBodies {
+		for _, b := range hopBodies {
+			if stop {
+				break
+			}
+			if idx&0xfff == 0 && rep.Expired() {
+				stop = true
+				break
+			}
+			if kit.Mine(idx) {
+				c06Check(rep, &c06Case{Stage: "hopseq", Group: "hopseq", Text: a + "\x1e" + b})
+			}
+			idx++
+		}
+	}
+	rep.Count("hop_bodies", int64(len(hopBodies)))
 	rep.Count("cases_generated", int64(idx)/int64(kit.NShard()))
 	rep.Max("max_text_length", int64(n))
 	if stop {
